@@ -81,8 +81,8 @@ impl EncWrite for Rec {
     }
 }
 
-static mut MDC_SET: bool = false;
-const MDC_VALUE: &str = "vé";
+pub static mut MDC_SET: bool = false;
+pub const MDC_VALUE: &str = "vé";
 
 #[cfg(kani)]
 pub fn stub_mdc_get<Q: ?Sized, F, T>(_key: &Q, f: F) -> T
